@@ -103,6 +103,25 @@ FIRST = {
  'C18h': ('missed', 'class 255 aliased onto NONE for UPDATE messages with TTL 0 and empty RDATA; every 16-bit CLASS field x every opcode x 5 record shapes added'),
  'C19h': ('missed', 'TXT::try_from(&str) refused texts whose RDATA would exceed 65535 bytes; split / join of long texts (around 2^12..2^16 and up to 2^20 bytes) added'),
  'C20h': ('missed', 'sync receive loop parsed the whole reused buffer, so a runt datagram re-ingested the previous announcement; after the real-clock expiry, datagrams that carry no fresh record (bare headers, truncated copies, the announcement as a query) must not bring the peer back'),
+ # round 9, adversarial, told everything incl. the round-8 additions (first encounter: commit 12e3bcf, first build profile only; seeded/_results/first_encounter_round9.txt)
+ 'C01i': ('missed', 'CERT parser panics when the certificate-type field is 6 and the first certificate byte equals the certificate length: two fields of one RDATA; byte-pair family added (every pair of positions in RDLENGTH + RDATA x relational value set, on each type\'s base record and on its all-integers-zero twin)'),
+ 'C03i': ('missed', 'the seek back to the end of the record moved into a debug_assert_eq!: every compressed message is corrupt in builds without debug assertions only; every check now also runs under a second binary built with the defaults of --release'),
+ 'C04i': ('missed', 'MessageWriter::flush no longer forwarded: with a buffering writer the tail of a compressed message stays in the buffer after Ok; std BufWriter (4 capacities, growable and too-small sinks) added to the writer set'),
+ 'C05i': ('missed', 'sections parsed in one pass bounded by a saturating u16 total: records beyond 65535 in all dropped; messages whose sections together hold 65536..196605 records added'),
+ 'C06i': ('missed', 'offset of a name\'s first pointer kept in a u16: names with a pointer beyond offset 65535 resume at the wrong place; reference encodings beyond 64 KiB with compressed names behind large records added to C05 / C06 / C01 / C11'),
+ 'C07i': ('missed', 'pointer-target offset cast to u16 before the 14-bit test: names first written beyond 65535 become bogus pointers; names first written behind 64 / 128 / 192 KiB of records and then repeated added to the large-record family'),
+ 'C09i': ('missed', 'off-by-one guard refuses the OPT record as the 65535th additional entry; C09 now runs the EDNS ceiling cases'),
+ 'C10i': ('missed', 'SVCB::set_port / set_no_default_alpn insert inside a debug_assert!: no-ops in release builds; second build profile'),
+ 'C11i': ('missed', 'off-by-one guard refuses a full additional section (65535) on re-serialisation; messages with sections at the last value of their counters added to C11'),
+ 'C12i': ('missed', 'Debug of a name decodes xn-- labels with unchecked arithmetic: xn--99999999 panics; decodable-label family (encoding prefixes + runs of every length, short strings over digits / letters / hyphen) added'),
+ 'C13i': ('missed', 'sync ServiceDiscovery replays a stored reply for a byte-identical query even after remove_service_from_discovery(); a ServiceDiscovery stage (answers while registered, repeats, silence after removal) added for the sync and tokio services'),
+ 'C14i': ('missed', 'send_packet retries forever: a query whose reply exceeds the UDP datagram limit wedges the sync receive loop; queries of 1400+ questions added to the datagram classes sent to the running services'),
+ 'C15i': ('missed', 'tokio discovery drops a response when its bounded notification channel is full; end-to-end cases with a discovery channel read late (capacity 1 unread while two peers join; unbounded; receiver dropped) added'),
+ 'C16i': ('missed', 'SVCB::into_owned copies parameters inside a debug_assert!: lost in release builds; second build profile'),
+ 'C17i': ('missed', 'Name::new rejects texts that parse as an IPv4 address; every string of length <= 9 over {0,1,9,.} and 60 address / number / keyword literals added'),
+ 'C18i': ('missed', 'match_qclass returns false for records whose RDATA is the typed OPT variant; typed OPT records (built and parsed) added to the match matrix'),
+ 'C19i': ('not reported', 'long_attributes treats two keys with the same 64-bit SipHash fingerprint as duplicates; the agent found a colliding pair with 10^9 hash evaluations. No bounded enumeration of inputs reaches such a pair: this change is outside what the technique can see (section 4 of DESIGN.md)'),
+ 'C20i': ('missed', 'tokio discovery drops a goodbye received while its notification channel is full; a socket case with a capacity-1 channel read late (announce, announce, goodbye, then catch up) added'),
 }
 def load_jsonl(pattern):
     out = {}
